@@ -24,7 +24,7 @@ REAL = ["cssutils/codec.py (detectencoding_str/unicode, _fixencoding, encode, de
 STUBS = ["SimPipe (byte queue with scripted delivery: short reads, empty reads before data)", "Producer (seeded text/encoding generator)"]
 ASSUMPTIONS = [
     "texts contain neither U+0000 nor U+FEFF (they are indistinguishable from BOM bytes of another encoding; CSS 2.1 4.4 is silent there)",
-    "stream consumers are driven with UTF-8/16/32 and single-byte legacy encodings (the statement's quantifier); multi-byte CJK codecs only through the incremental classes",
+    "all four consumers are driven with UTF-8/16/32, single-byte legacy and multi-byte CJK encodings; stateful ones (iso2022_jp, hz) not through StreamWriter, which has no end-of-stream call to return to ASCII",
     "reference detector is silent for inputs starting with '@' 00 or 00 (BOM-less UTF-16/32 signature rows)",
 ]
 PROBES = [
@@ -39,6 +39,7 @@ PROBES = [
     "short_read",
     "empty_read_before_data",
     "oneshot_raises",
+    "coder_reused_after_reset",
 ]
 
 PREFIX = '@charset "'
@@ -232,8 +233,11 @@ def config(rs, run, tier):
         return {"kind": "prefix", "b3": [c[k // 121], c[(k // 11) % 11], c[k % 11]], "script": [{"op": "prefix_family"}], "n_ops": 1, "sweep": "prefix4"}
     r = rs("config")
     cons = r.choice(["idec", "idec", "ienc", "ienc", "sread", "swrite"])
-    if cons in ("sread", "swrite"):
-        enc = r.choice(UTF + SINGLE)
+    if cons == "sread":
+        enc = r.choice(UTF + SINGLE + MULTI)
+    elif cons == "swrite":
+        # (a stateful encoding needs an end-of-stream call to return to ASCII, which StreamWriter lacks)
+        enc = r.choice(UTF + SINGLE + [m for m in MULTI if m not in STATEFUL])
     else:
         enc = r.choice(UTF + SINGLE + MULTI)
     c = rs("content")
@@ -259,6 +263,7 @@ def config(rs, run, tier):
         "text": text,
         "n_ops": r.choice([1, 2, 3, 4, 6, 9, 12, 12]),
         "final_mode": r.choice(["with_last", "trailing_empty"]),
+        "reuse_after_reset": r.choice([None, None, '@charset "iso-8859-1";\u00e4 { }', "\u00e4 { left: 0 }", '@charset "utf-16";a{}']),
         "landmark_bias": r.choice([0.0, 0.5, 0.5, 0.9]),
         "short_rate": r.choice([0.0, 0.2, 0.6]),
     }
@@ -536,7 +541,33 @@ class World:
                 if undecided_text or (self.cons == "sread" and len(self.data) < 4 and self.codec.detectencoding_str(self.data, False)[0] is None):
                     sig = f"{self.cons}:undecided-header-at-end-of-stream"
             raise Viol("stream_equals_oneshot", sig, f"chunked result {self.out!r} != one-shot {self.expected!r}; text={self.text!r} enc={self.enc} explicit={self.explicit} force={self.force}")
+        self._reuse_after_reset()
         self._pure_oracles()
+
+    def _reuse_after_reset(self):
+        """an incremental coder that is reset() and given a second document (another encoding) behaves like a new one"""
+        if self.cons not in ("idec", "ienc") or not self.cfg.get("reuse_after_reset"):
+            return
+        codec = self.codec
+        text2 = self.cfg["reuse_after_reset"]
+        try:
+            if self.cons == "idec":
+                enc2 = "iso-8859-1" if "iso-8859-1" in text2 else "utf-16"
+                data2 = text2.encode(enc2)
+                want = codec.decode(data2, "strict", self.explicit, self.force)[0]
+            else:
+                want = codec.encode(text2, "strict", self.explicit)[0]
+        except Exception:  # noqa: BLE001
+            return  # the one-shot call refuses this combination: nothing to compare
+        self.stats["oracle"] += 1
+        self.stats["probe:coder_reused_after_reset"] += 1
+        try:
+            self.c.reset()
+            got = self.c.decode(data2, True) if self.cons == "idec" else self.c.encode(text2, True)
+        except Exception as e:  # noqa: BLE001
+            raise Viol("reset_forgets_previous_input", f"{self.cons}:raises:{type(e).__name__}", f"after reset() the coder raised {e!r} on a second document {text2!r}; first document {self.text[:60]!r} in {self.enc}")
+        if got != want:
+            raise Viol("reset_forgets_previous_input", f"{self.cons}:mismatch", f"after reset() the coder gives {got!r} for a second document {text2!r}, a new coder / the one-shot call {want!r}; first document {self.text[:60]!r} in {self.enc}")
 
     def _pure_oracles(self):
         try:
